@@ -233,58 +233,9 @@ func init() {
 		return fmt.Sprintf("split-pure=%s parts-ok=%s shared=%s orig-unchanged=%s", btoa(pure), btoa(partsOk), btoa(shared), btoa(origKept))
 	})
 	register("alias", func(a []string) string {
-		al := alFrom(a[1], atoi(a[0]))
-		var c align.SeqBag
-		var err error
-		L := al.Length()
-		rand.Seed(7)
-		switch a[2] {
-		case "clone":
-			c, err = al.Clone()
-		case "clonebag":
-			c, err = al.CloneSeqBag()
-		case "subalign":
-			// optional a[3] = "start,length" (default: the whole alignment)
-			st, ln := 0, L
-			if len(a) > 3 && a[3] != "_" {
-				f := strings.Split(a[3], ",")
-				st, ln = atoi(f[0]), atoi(f[1])
-			}
-			c, err = al.SubAlign(st, ln)
-		case "selectsites":
-			// optional a[3] = site list (default: every site in order)
-			sites := make([]int, L)
-			for i := range sites {
-				sites[i] = i
-			}
-			if len(a) > 3 && a[3] != "_" {
-				sites = sites[:0]
-				for _, x := range strings.Split(a[3], ",") {
-					sites = append(sites, atoi(x))
-				}
-			}
-			c, err = al.SelectSites(sites)
-		case "transpose":
-			c, err = al.Transpose()
-		case "bootstrap":
-			c = al.BuildBootstrap(1.0)
-		case "unalign":
-			c = al.Unalign()
-		case "sample":
-			c, err = al.Sample(al.NbSequences())
-		case "randsub":
-			// optional a[3] = "length,consecutive"
-			ln, cons := L, true
-			if len(a) > 3 && a[3] != "_" {
-				f := strings.Split(a[3], ",")
-				ln, cons = atoi(f[0]), atob(f[1])
-			}
-			c, err = al.RandSubAlign(ln, cons)
-		default:
-			return "bad-op"
-		}
-		if err != nil {
-			return "err"
+		c, al, bad := mkCopy(a)
+		if bad != "" {
+			return bad
 		}
 		shared := overlap(spans(al), spans(c))
 		before := snapshot(al)
@@ -306,4 +257,89 @@ func init() {
 		copyKept := encRows(rowsOf(c)) == cs
 		return fmt.Sprintf("shared=%s orig-unchanged=%s copy-unchanged=%s", btoa(shared), btoa(origKept), btoa(copyKept))
 	})
+
+	// aliasappend <alphabet> <rows> <constructor> [arg]: the derived alignment is grown in place (Concat of a clone of
+	// itself: every row is appended to); each row must then read row+row, and the source must be unchanged.
+	// A derived object whose rows keep spare capacity inside another row's (or the source's) bytes fails here.
+	register("aliasappend", func(a []string) string {
+		c, al, bad := mkCopy(a)
+		if bad != "" {
+			return bad
+		}
+		ca, ok := c.(align.Alignment)
+		if !ok {
+			return "not-an-alignment"
+		}
+		other, err := ca.Clone()
+		if err != nil {
+			return "err"
+		}
+		want := rowsOf(ca)
+		for i := range want {
+			want[i].Seq = want[i].Seq + want[i].Seq
+		}
+		before := snapshot(al)
+		if err := ca.Concat(other); err != nil {
+			return "err"
+		}
+		return fmt.Sprintf("append-ok=%s orig-unchanged=%s", btoa(encRows(rowsOf(ca)) == encRows(want)), btoa(snapshot(al) == before))
+	})
+}
+
+// mkCopy builds the alignment of the case and the copy / derived object the case names (clone, subalign, ...)
+func mkCopy(a []string) (align.SeqBag, align.Alignment, string) {
+	al := alFrom(a[1], atoi(a[0]))
+	var c align.SeqBag
+	var err error
+	L := al.Length()
+	rand.Seed(7)
+	switch a[2] {
+	case "clone":
+		c, err = al.Clone()
+	case "clonebag":
+		c, err = al.CloneSeqBag()
+	case "subalign":
+		// optional a[3] = "start,length" (default: the whole alignment)
+		st, ln := 0, L
+		if len(a) > 3 && a[3] != "_" {
+			f := strings.Split(a[3], ",")
+			st, ln = atoi(f[0]), atoi(f[1])
+		}
+		c, err = al.SubAlign(st, ln)
+	case "selectsites":
+		// optional a[3] = site list (default: every site in order)
+		sites := make([]int, L)
+		for i := range sites {
+			sites[i] = i
+		}
+		if len(a) > 3 && a[3] != "_" {
+			sites = sites[:0]
+			for _, x := range strings.Split(a[3], ",") {
+				sites = append(sites, atoi(x))
+			}
+		}
+		c, err = al.SelectSites(sites)
+	case "transpose":
+		c, err = al.Transpose()
+	case "bootstrap":
+		c = al.BuildBootstrap(1.0)
+	case "unalign":
+		c = al.Unalign()
+	case "sample":
+		c, err = al.Sample(al.NbSequences())
+	case "randsub":
+		// optional a[3] = "length,consecutive"
+		ln, cons := L, true
+		if len(a) > 3 && a[3] != "_" {
+			f := strings.Split(a[3], ",")
+			ln, cons = atoi(f[0]), atob(f[1])
+		}
+		c, err = al.RandSubAlign(ln, cons)
+	default:
+		return nil, al, "bad-op"
+	}
+	if err != nil {
+		return nil, al, "err"
+	}
+	return c, al, ""
 }
